@@ -23,11 +23,17 @@ Init == l = 1
 Next == l <= Len(Tr) /\ l' = l + 1
 Spec == Init /\ [][Next]_vars
 
+\* the same expression as the 16-bit address of an instruction operand (e.ctx names the CPU and form): when the reference
+\* value fits -32768..65535 the operand word is its low 16 bits, an expression without a value is rejected; other
+\* values are the subject of C06
+CtxOk(e, ts) == LET ref == RefEval(ts) IN
+  IF ref.k = "val" /\ WInRangeS(ref.v, -32768, 65535) THEN e.obs.k = "val" /\ SubSeq(e.obs.v, 1, 2) = SubSeq(ref.v, 1, 2)
+  ELSE IF ref.k = "rej" THEN e.obs.k = "rej" ELSE TRUE
 Report ==
   IF l > Len(Tr) THEN PrintT("VERDICT " \o ToJson([done |-> Len(Tr)]))
   ELSE LET e   == Tr[l]
            ts  == Toks(e)
-           vd  == Verdict(ts, e.obs)
+           vd  == IF "ctx" \in DOMAIN e THEN (IF CtxOk(e, ts) THEN "ok" ELSE "violation") ELSE Verdict(ts, e.obs)
        IN (vd = "ok" /\ "canary" \notin DOMAIN e) \/
           PrintT("VERDICT " \o ToJson([id |-> e.id, vd |-> vd, dev |-> ImplEval(ts).dev,
                                         ref |-> RefEval(ts), imp |-> ImplEval(ts).k]))
